@@ -212,6 +212,7 @@ pub fn run(ctx: &mut Ctx) {
     ctx.floor("empty-with-data.rejected", 4 * 50);
     ctx.floor("overlong.no_value", 2_000);
     ctx.floor("list.cut.ok", 1_000);
+    ctx.floor("wire-max.cases", 50);
 
     // ------------------------------------------------ all 65536 types x 3 dispatchers
     ctx.sweep("all-types", 256, |ctx, idx| {
@@ -244,7 +245,7 @@ pub fn run(ctx: &mut Ctx) {
     ctx.mark_exhaustive("all 65536 extension types through the three dispatchers");
 
     // ------------------------------------------------ known types x generated contents
-    let n = ctx.tier.pick(30 * 400, 30 * 6000);
+    let n = ctx.tier.pick(48000, 720000);
     ctx.family("known-contents", n, |ctx, case: &mut Case| {
         let r = &mut case.rng;
         let k = (case.idx % gen::EXT_GENERATORS as u64) as usize;
@@ -259,8 +260,24 @@ pub fn run(ctx: &mut Ctx) {
         }
     });
 
+
+    // ------------------------------------------------ contents at the maximum their length prefixes allow (and 1, 2 below)
+    ctx.sweep("wire-maximum-contents", (gen::EXT_GENERATORS * 3) as u64, |ctx, idx| {
+        let k = (idx / 3) as usize;
+        let minus = (idx % 3) as usize;
+        let mut rng = Rng::new(idx ^ 0x3A3A);
+        if let Some(a) = gen::ext_at_max(&mut rng, k, minus) {
+            if a.to_bytes().len() <= 65535 + 4 {
+                for (dn, d) in DISPATCHERS {
+                    judge_single(ctx, dn, d, &a, &[0x77]);
+                }
+                ctx.count("wire-max.cases");
+            }
+        }
+    });
+
     // ------------------------------------------------ lists through the three list parsers
-    let n = ctx.tier.pick(4_000, 40_000);
+    let n = ctx.tier.pick(16000, 160000);
     ctx.family("lists", n, |ctx, case: &mut Case| {
         let r = &mut case.rng;
         let max = *r.pick(&[0usize, 1, 3, 10, 50]);
@@ -408,7 +425,7 @@ pub fn run(ctx: &mut Ctx) {
     ctx.mark_exhaustive("each of the 16 tag parsers x all 65536 wire types");
 
     // ------------------------------------------------ corruptions
-    let n = ctx.tier.pick(6_000, 60_000);
+    let n = ctx.tier.pick(24000, 240000);
     ctx.family("corruptions", n, |ctx, case: &mut Case| {
         let r = &mut case.rng;
         match case.idx % 4 {
